@@ -30,8 +30,8 @@ package conf
 // configuration matching it in name order with all/all_others last - i.e. no other matching configuration
 // comes before it - together with that match's capture groups; otherwise the name is rejected. The
 // postcondition determines the result uniquely, while the map is iterated in arbitrary order.
-// Hypotheses on the configuration map (established by Conf.Validate): every entry is stored under its own
-// name and at most one of the two catch-all names is present.
+// wf(): hypotheses on the configuration map (established by Conf.Validate): every entry is stored under its
+// own name and at most one of the two catch-all names is present.
 
 //@ func FindPathConf$1
 //@   property C14
@@ -43,22 +43,21 @@ package conf
 //@ func FindPathConf
 //@   property C06, C14
 //@   modifies nothing
-//@   domain forall(n, string, has(pathConfs, n) ==> pathConfs[n] != nil && pathConfs[n].Name == n)
-//@   domain !(has(pathConfs, "all") && has(pathConfs, "all_others"))
+//@   def wf() bool = forall(n, string, has(pathConfs, n) ==> pathConfs[n] != nil && pathConfs[n].Name == n) && !(has(pathConfs, "all") && has(pathConfs, "all_others"))
 //@   def rx(n string) bool = has(pathConfs, n) && pathConfs[n].Regexp != nil
 //@   def hit(c *Path) bool = !isnil(reSubmatch(c.Regexp, name))
 //@   loop 1 invariant isnil(regexpPathConfs) || fresh(regexpPathConfs)
-//@   loop 1 invariant forall(j, 0, len(regexpPathConfs), regexpPathConfs[j] != nil && regexpPathConfs[j].Regexp != nil && has(pathConfs, regexpPathConfs[j].Name) && pathConfs[regexpPathConfs[j].Name] == regexpPathConfs[j])
-//@   loop 1 invariant forall(n, string, visited(pathConfs, n) && rx(n) ==> exists(j, 0, len(regexpPathConfs), regexpPathConfs[j] == pathConfs[n]))
+//@   loop 1 invariant wf() ==> forall(j, 0, len(regexpPathConfs), regexpPathConfs[j] != nil && regexpPathConfs[j].Regexp != nil && has(pathConfs, regexpPathConfs[j].Name) && pathConfs[regexpPathConfs[j].Name] == regexpPathConfs[j])
+//@   loop 1 invariant wf() ==> forall(n, string, visited(pathConfs, n) && rx(n) ==> exists(j, 0, len(regexpPathConfs), regexpPathConfs[j] == pathConfs[n]))
 //@   loop 2 invariant 0 <= _i && _i <= len(regexpPathConfs)
-//@   loop 2 invariant forall(j, 0, len(regexpPathConfs), regexpPathConfs[j] != nil && regexpPathConfs[j].Regexp != nil && has(pathConfs, regexpPathConfs[j].Name) && pathConfs[regexpPathConfs[j].Name] == regexpPathConfs[j])
-//@   loop 2 invariant forall(n, string, rx(n) ==> exists(j, 0, len(regexpPathConfs), regexpPathConfs[j] == pathConfs[n]))
+//@   loop 2 invariant wf() ==> forall(j, 0, len(regexpPathConfs), regexpPathConfs[j] != nil && regexpPathConfs[j].Regexp != nil && has(pathConfs, regexpPathConfs[j].Name) && pathConfs[regexpPathConfs[j].Name] == regexpPathConfs[j])
+//@   loop 2 invariant wf() ==> forall(n, string, rx(n) ==> exists(j, 0, len(regexpPathConfs), regexpPathConfs[j] == pathConfs[n]))
 //@   loop 2 invariant forall(a, 0, len(regexpPathConfs), forall(b, a+1, len(regexpPathConfs), !nameBefore(regexpPathConfs[b].Name, regexpPathConfs[a].Name)))
 //@   loop 2 invariant forall(j, 0, _i, !hit(regexpPathConfs[j]))
 //@   ensures [static-hit] old(has(pathConfs, name)) ==> result0 == old(pathConfs[name]) && isnil(result1) && result2 == nil
 //@   ensures [invalid-name-rejected] !old(has(pathConfs, name)) && !validName(name) ==> result2 != nil
 //@   ensures [otherwise-valid] result2 == nil ==> old(has(pathConfs, name)) || validName(name)
 //@   ensures [error-returns-nothing] result2 != nil ==> result0 == nil && isnil(result1)
-//@   ensures [regexp-result-is-a-matching-configuration] !has(pathConfs, name) && result2 == nil ==> result0 != nil && rx(result0.Name) && pathConfs[result0.Name] == result0 && hit(result0) && result1 == reSubmatch(result0.Regexp, name)
-//@   ensures [no-matching-configuration-comes-before-it] !has(pathConfs, name) && result2 == nil ==> forall(n, string, rx(n) && hit(pathConfs[n]) && n != result0.Name ==> nameBefore(result0.Name, n))
-//@   ensures [rejected-only-when-nothing-matches] !has(pathConfs, name) && validName(name) && result2 != nil ==> forall(n, string, rx(n) ==> !hit(pathConfs[n]))
+//@   ensures [regexp-result-is-a-matching-configuration] wf() && !has(pathConfs, name) && result2 == nil ==> result0 != nil && rx(result0.Name) && pathConfs[result0.Name] == result0 && hit(result0) && result1 == reSubmatch(result0.Regexp, name)
+//@   ensures [no-matching-configuration-comes-before-it] wf() && !has(pathConfs, name) && result2 == nil ==> forall(n, string, rx(n) && hit(pathConfs[n]) && n != result0.Name ==> nameBefore(result0.Name, n))
+//@   ensures [rejected-only-when-nothing-matches] wf() && !has(pathConfs, name) && validName(name) && result2 != nil ==> forall(n, string, rx(n) ==> !hit(pathConfs[n]))
